@@ -25,7 +25,7 @@ structure Instr where
 def extName : Str := [69, 88, 84, 69, 78, 68, 69, 68, 95, 65, 82, 71]
 example : extName = str "EXTENDED_ARG" := by decide
 
-def isExtName (t : OpTable) (op : Nat) : Bool := t.opnameOf op == extName
+def isExtName (t : OpTable) (op : Nat) : Bool := Str.eqb (t.opnameOf op) extName
 
 def py36 (t : OpTable) : Bool := verGe t.version 3 6
 
@@ -179,7 +179,7 @@ def findlabelsWord (t : OpTable) (cache313 : List (Str × Nat)) (code : Bytes) :
         let arg2 := if verGe t.version 3 11 && isInfix jbName (t.opnameOf op) then -arg2 else arg2
         let j := (offset : Int) + 2 + arg2 +
           (if verGe t.version 3 13 then 2 * (cacheSize cache313 (t.opnameOf op) : Int)
-           else if verGe t.version 3 12 && (t.opnameOf op == forIterName || t.opnameOf op == sendName) then 2 else 0)
+           else if verGe t.version 3 12 && (Str.eqb (t.opnameOf op) forIterName || Str.eqb (t.opnameOf op) sendName) then 2 else 0)
         addLabel ls j
       else if t.isJabs op then addLabel ls arg2
       else ls) [])
